@@ -186,7 +186,7 @@ def search(prefix, maxlen, res, variants):
 
 
 # =================================================================== (b) corpora
-WORDS = ['a', ',', '&', '<', '"', "'", 'ä', '日', '#', '-LRB-', '*T*-1', 'b']
+WORDS = ['a', ',', '&', '<', '"', "'", 'ä', '日', '#', '-LRB-', '*T*-1', 'b', '#7', '#12', '#1234']
 LABELS = ['NP-SBJ-1', 'NP=2', 'S', 'VP-HD', 'PP', "AP'"]
 
 
